@@ -42,7 +42,8 @@ def gen_cases(ctx):
                                          "rows": rows, "continuous": rng.choice([None, None, 600, 1200]), "u": rng.choice([0.1, 0.3, 0.6]),
                                          # output reference time: the start, before it, inside the run, after its end, or the
                                          # default (None: each run's own start, so the restarted run has a different one)
-                                         "reference": [N * 600 + 7200, (N // 2) * 600 + 300, None, -86400, 0][ci % 5]},
+                                         "reference": [N * 600 + 7200, (N // 2) * 600 + 300, None, -86400, 0][ci % 5],
+                                         "offgrid": ci % 2 == 1},
                     "seed": rng.randrange(10**6)})
     # whole set-ups (Model/Setup.v, SetupWarm.v): irregular frames in several files, forward and reversed clocks,
     # multiplicities; the split run and a restart from every file boundary against the model's restarted run
